@@ -126,6 +126,8 @@ type proveOpts struct {
 	overlay                map[string][]byte
 	quiet                  bool
 	noEvidence             bool
+	onlyPkg                string // selftest: restrict to the functions and lemmas of one package path
+	onlyFile               string // selftest: ... and, within it, to the functions declared in this file (plus the package's ghost lemma functions)
 }
 
 type proveResult struct {
@@ -213,9 +215,20 @@ func runProve(po proveOpts) (res proveResult) {
 		if *only != "" && !strings.Contains(fc.Key(), *only) {
 			continue
 		}
+		if po.onlyPkg != "" && fc.PkgPath != po.onlyPkg {
+			continue
+		}
 		p := eng.pkgs[fc.PkgPath]
 		if p == nil || !strings.HasPrefix(fc.PkgPath, repoModule) || fc.Flags["assumed"] || fc.Flags["trusted"] {
 			continue
+		}
+		if po.onlyFile != "" {
+			if d, _ := eng.findFunc(p, fc); d != nil {
+				fn := eng.fset.Position(d.Pos()).Filename
+				if fn != po.onlyFile && !strings.Contains(filepath.Base(fn), "zz_verif_") {
+					continue
+				}
+			}
 		}
 		targets = append(targets, target{p, fc})
 	}
@@ -237,6 +250,9 @@ func runProve(po proveOpts) (res proveResult) {
 			continue
 		}
 		if *only != "" && !strings.Contains(lm.Name, *only) {
+			continue
+		}
+		if po.onlyPkg != "" && lm.PkgPath != po.onlyPkg {
 			continue
 		}
 		p := eng.pkgs[lm.PkgPath]
